@@ -98,6 +98,12 @@ var AllScenarios = func() []Scenario {
 			out = append(out, Scenario{Bump: bump, E: e, Q1: 4})
 		}
 	}
+	// ... and with its COMMIT reaching nobody (the locks stay, nobody commits)
+	for _, bump := range []bool{false, true} {
+		for _, e := range []int{0, 2} {
+			out = append(out, Scenario{Bump: bump, E: e, Q1: 4, Q2: 1})
+		}
+	}
 	return out
 }()
 
@@ -219,7 +225,7 @@ func OpsFor(in Info, reduced bool) []int {
 			pq := [3]int{s.P, s.Q1, s.Q2}
 			switch pq {
 			case [3]int{0, 0, 0}, [3]int{1, 0, 0}, [3]int{0, 1, 0}, [3]int{0, 0, 1}:
-			case [3]int{0, 2, 0}, [3]int{0, 4, 0}:
+			case [3]int{0, 2, 0}, [3]int{0, 4, 0}, [3]int{0, 2, 1}, [3]int{0, 4, 1}:
 				// PRECOMMIT reaching a minimal quorum only: some honest nodes lock, another keeps an older lock (or none).
 				// Liveness needs it (sixth-round seed C15: a holder of an older-root-height lock that never unlocks)
 				if !ReducedMinQuorum || s.L != 0 {
